@@ -357,7 +357,7 @@ struct Engine {
     std::vector<Field> fields;
     VState base;
     Result& res;
-    std::unordered_set<u64> digests;
+    DigestSet digests;
     explicit Engine(Result& r) : res(r) {
         impl = LoadLib("libimpl.so");
         fields = AllFields();
